@@ -1975,11 +1975,17 @@ fn writebehind_run(rng: &mut Rng, out: &mut Out, rec: &Arc<Recorder>, dir: &str,
     let blocks = 256u64;
     let path = format!("{}/wb{}.feox", dir, idx);
     let _ = std::fs::remove_file(&path);
+    // half of the devices are files somebody pre-sized (all zero) before the store first opens them
+    let preallocated = rng.chance(1, 2);
     rec.log.lock().unwrap().clear();
     *rec.plan.lock().unwrap() = FaultPlan::default();
     // the probes below open a second store while this one keeps running: record only this one's device
     rec.fd.store(-2, Ordering::SeqCst);
     rec.enabled.store(true, Ordering::SeqCst);
+    if preallocated {
+        if let Ok(f) = std::fs::File::create(&path) { let _ = f.set_len(blocks * BS as u64); }
+        out.count("write-behind on a preallocated (all-zero) device file");
+    }
     let Ok(store) = open_store(&path, blocks, false) else { rec.enabled.store(false, Ordering::SeqCst); rec.fd.store(-1, Ordering::SeqCst); return };
     let nkeys = rng.range(8, 40);
     let keys: Vec<Vec<u8>> = (0..nkeys).map(|i| format!("w{}-{}", i, rng.below(100000)).into_bytes()).collect();
